@@ -19,6 +19,8 @@ package main
 import (
 	"bytes"
 	"fmt"
+	"regexp"
+	"runtime/debug"
 	"sort"
 	"strconv"
 	"strings"
@@ -67,6 +69,11 @@ var (
 	optTotal int
 
 	oracles map[[2]int]*oracle // (conn,dir as sent) -> oracle
+	// a flush with a close cut-off ran: halves may have been closed without the stream seeing `end`
+	closingFlush bool
+	segsFed      int  // segments fed in this case
+	optsLate     bool // limits were changed after segments had been fed: the bound is not monitored
+	multiPage    bool // a packet larger than one page was fed
 )
 
 type factory struct{}
@@ -76,6 +83,14 @@ func (factory) New(netFlow, tcpFlow gopacket.Flow, tcp *layers.TCP, ac reassembl
 	streams = append(streams, s)
 	events = append(events, event{s.conn, fmt.Sprintf("new %d %d", s.conn, s.sid)})
 	lib.Stat("stream-new")
+	firstDir[s.sid] = curSeg.dir
+	// a new connection object: whatever an earlier incarnation of this flow saw does not count
+	for d := 0; d < 2; d++ {
+		if o := oracles[[2]int{s.conn, d}]; o != nil && o.used {
+			oracles[[2]int{s.conn, d}] = &oracle{S: o.S, isn: o.isn, covered: make([]bool, len(o.S)), reopen: true}
+		}
+	}
+	monSegFed(curSeg.conn, curSeg.dir, curSeg.seq, curSeg.flags, curSeg.acc, curSeg.pay)
 	return s
 }
 
@@ -173,6 +188,8 @@ type oracle struct {
 	ended    bool
 	bad      bool
 	sawLimit bool
+	used     bool // a segment of this direction was fed to the current incarnation
+	reopen   bool // second incarnation of the connection id: completeness is not checked
 	// classification tags for signatures
 	synRetxData bool
 	finQueued   bool
@@ -184,6 +201,16 @@ func oracleFor(conn int, dir int) *oracle {
 
 // which sent-direction does an SG direction bit correspond to?  The first packet of a
 // connection defines client->server (dir bit 0).
+type segRec struct {
+	conn, dir int
+	seq       uint32
+	flags     string
+	acc       int
+	pay       []byte
+}
+
+var curSeg segRec
+
 var firstDir = map[int]int{} // sid -> sent dir of the connection's first packet
 
 func monSG(s *stream, dir bool, skip int, start, end bool, saved, nw []byte, keepOff int) {
@@ -215,7 +242,7 @@ func monSG(s *stream, dir bool, skip int, start, end bool, saved, nw []byte, kee
 			o.ended = true
 		}
 	}()
-	if o.haveKept && !bytes.Equal(saved, o.kept) {
+	if o.haveKept && !bytes.Equal(saved, o.kept) && !(skip != 0 && len(saved) == 0) {
 		lib.Finding("C09", "reasm:sg:kept-bytes", fmt.Sprintf("conn %d dir %d: stream kept %d bytes (%s) but the next SG presents %d saved bytes (%s)", s.conn, sent, len(o.kept), lib.Hex(trunc(o.kept)), len(saved), lib.Hex(trunc(saved))))
 	}
 	if o.bad {
@@ -292,7 +319,11 @@ func imin(a, b int) int {
 // monSegFed notes what the sender put on the wire (for coverage / completeness).
 func monSegFed(conn, dir int, seq uint32, flags string, acc int, payload []byte) {
 	o := oracleFor(conn, dir)
-	if o == nil || acc == 0 || o.ended {
+	if o == nil {
+		return
+	}
+	o.used = true
+	if acc == 0 || o.ended {
 		return
 	}
 	syn := strings.Contains(flags, "S")
@@ -304,13 +335,12 @@ func monSegFed(conn, dir int, seq uint32, flags string, acc int, payload []byte)
 			o.synRetxData = true
 		}
 	}
-	if syn || acc == 2 {
-		if !o.started && !o.unsynced {
-			o.started = true
-			if !syn {
-				o.pos = off
-			}
-		}
+	if acc == 2 && !syn && !o.started {
+		// the stream itself forces a start in the middle: outside the property (no start was SEEN)
+		o.unsynced = true
+	}
+	if syn && !o.started && !o.unsynced {
+		o.started = true
 	}
 	if strings.Contains(flags, "F") && !syn {
 		if !o.started || off > o.pos {
@@ -336,7 +366,7 @@ func monAfterFlushAll() {
 			remain++
 		}
 	}
-	if n := pool.VerifConnCount(); n != remain {
+	if n := pool.VerifConnCount(); n > remain {
 		lib.Finding("C11", "reasm:flushall-conns-remain", fmt.Sprintf("after FlushAll %d connections are in the pool, %d streams refused removal", n, remain))
 	}
 	if u := asm.VerifPagesUsed(); u != 0 {
@@ -349,7 +379,7 @@ func monAfterFlushAll() {
 	}
 	// C09 completeness: every byte and the start arrived, nothing was skipped => everything delivered
 	for k, o := range oracles {
-		if o.bad || o.unsynced || !o.started {
+		if o.bad || o.unsynced || !o.started || o.reopen || closingFlush {
 			continue
 		}
 		full := true
@@ -370,16 +400,20 @@ func monAfterFlushAll() {
 
 // monLimit: C11 limit bound after an Assemble step.
 func monLimit(npay int) {
-	if optPer <= 0 && optTotal <= 0 {
+	if (optPer <= 0 && optTotal <= 0) || optsLate {
 		return
+	}
+	tag := ""
+	if multiPage {
+		tag = ":multipage"
 	}
 	pk := (npay + pageBytes - 1) / pageBytes
 	queued, maxHalf, _ := pool.VerifPages()
 	if optPer > 0 && maxHalf > optPer+pk {
-		lib.Finding("C11", "reasm:limit:per-connection", fmt.Sprintf("MaxBufferedPagesPerConnection=%d, packet of %d page(s): a half connection holds %d queued pages", optPer, pk, maxHalf))
+		lib.Finding("C11", "reasm:limit:per-connection"+tag, fmt.Sprintf("MaxBufferedPagesPerConnection=%d, packet of %d page(s): a half connection holds %d queued pages", optPer, pk, maxHalf))
 	}
 	if optTotal > 0 && queued > optTotal+pk {
-		lib.Finding("C11", "reasm:limit:total", fmt.Sprintf("MaxBufferedPagesTotal=%d, packet of %d page(s): %d pages queued", optTotal, pk, queued))
+		lib.Finding("C11", "reasm:limit:total"+tag, fmt.Sprintf("MaxBufferedPagesTotal=%d, packet of %d page(s): %d pages queued", optTotal, pk, queued))
 	}
 }
 
@@ -394,6 +428,8 @@ func reset() {
 	optPer, optTotal = 0, 0
 	oracles = map[[2]int]*oracle{}
 	firstDir = map[int]int{}
+	closingFlush = false
+	segsFed, optsLate, multiPage = 0, false, false
 }
 
 func ts(n int) time.Time { return time.Unix(1000000+int64(n), 0) }
@@ -432,12 +468,27 @@ func renderEvents(grouped bool) string {
 	return sb.String()
 }
 
+var (
+	panicMsg, panicSite string
+	siteRe              = regexp.MustCompile(`reassembly/[a-z_]+\.go:\d+`)
+)
+
 // guarded runs f with a watchdog; a panic inside f is converted to "panic <kind>".
 func guarded(f func()) (res string) {
 	done := make(chan string, 1)
 	go func() {
-		r, _ := lib.Protect(func() string { f(); return "" })
-		done <- r
+		defer func() {
+			if v := recover(); v != nil {
+				panicMsg = fmt.Sprint(v)
+				panicSite = "?"
+				if m := siteRe.FindString(string(debug.Stack())); m != "" {
+					panicSite = m
+				}
+				done <- "panic " + lib.PanicKind(v)
+			}
+		}()
+		f()
+		done <- ""
 	}()
 	select {
 	case r := <-done:
@@ -508,6 +559,9 @@ func exec(a []string) string {
 			return "bad-op"
 		}
 		optPer, optTotal = p, t
+		if segsFed > 0 {
+			optsLate = true
+		}
 		asm.MaxBufferedPagesPerConnection = p
 		asm.MaxBufferedPagesTotal = t
 		if p > 0 || t > 0 {
@@ -525,7 +579,8 @@ func exec(a []string) string {
 		if !ok1 || !ok2 || !ok3 || !ok4 || c < 0 || c > 1000 || d < 0 || d > 1 || isn > 0xffffffff {
 			return "bad-op"
 		}
-		oracles[[2]int{c, d}] = &oracle{S: S, isn: uint32(isn), covered: make([]bool, len(S))}
+		_, again := oracles[[2]int{c, d}]
+		oracles[[2]int{c, d}] = &oracle{S: S, isn: uint32(isn), covered: make([]bool, len(S)), reopen: again}
 		return "ok"
 	case "seg":
 		if len(a) != 11 {
@@ -566,22 +621,23 @@ func exec(a []string) string {
 		}
 		curConn, curAcc, curKeep, curCmpl, curOp = c, acc, keep, cmpl, "seg"
 		events = events[:0]
-		nstreams := len(streams)
+		segsFed++
+		if len(pay) > pageBytes {
+			multiPage = true
+		}
+		curSeg = segRec{c, d, uint32(seq), flags, acc, pay}
 		monSegFed(c, d, uint32(seq), flags, acc, pay)
 		r := guarded(func() {
 			asm.AssembleWithContext(nf, tcp, &actx{gopacket.CaptureInfo{Timestamp: ts(tsn)}})
 		})
-		if len(streams) > nstreams {
-			firstDir[streams[nstreams].sid] = d
-		}
 		lib.Stat("seg")
 		if len(pay) > pageBytes {
 			lib.Stat("seg-multipage")
 		}
 		if r != "" {
 			dead = true
-			lib.Finding("*", "reasm:"+strings.ReplaceAll(r, " ", ":")+":"+lib.LastPanicSite, "AssembleWithContext panicked: "+lib.LastPanicMsg)
-			return r + renderEvents(false)
+			lib.Finding("*", "reasm:"+strings.ReplaceAll(r, " ", ":")+":"+panicSite, "AssembleWithContext panicked: "+panicMsg)
+			return r
 		}
 		monLimit(len(pay))
 		return "ok " + status() + renderEvents(false)
@@ -595,6 +651,9 @@ func exec(a []string) string {
 			return "bad-op"
 		}
 		curAcc, curKeep, curCmpl, curOp = 1, a[4], a[5], "flush"
+		if tc > 0 {
+			closingFlush = true
+		}
 		events = events[:0]
 		var fl, cl int
 		r := guarded(func() {
@@ -603,8 +662,8 @@ func exec(a []string) string {
 		lib.Stat("flush")
 		if r != "" {
 			dead = true
-			lib.Finding("*", "reasm:"+strings.ReplaceAll(r, " ", ":")+":"+lib.LastPanicSite, "FlushWithOptions panicked: "+lib.LastPanicMsg)
-			return r + renderEvents(true)
+			lib.Finding("*", "reasm:"+strings.ReplaceAll(r, " ", ":")+":"+panicSite, "FlushWithOptions panicked: "+panicMsg)
+			return r
 		}
 		return fmt.Sprintf("ok f=%d c=%d %s", fl, cl, status()) + renderEvents(true)
 	case "flushall":
@@ -618,8 +677,8 @@ func exec(a []string) string {
 		lib.Stat("flushall")
 		if r != "" {
 			dead = true
-			lib.Finding("*", "reasm:"+strings.ReplaceAll(r, " ", ":")+":"+lib.LastPanicSite, "FlushAll panicked: "+lib.LastPanicMsg)
-			return r + renderEvents(true)
+			lib.Finding("*", "reasm:"+strings.ReplaceAll(r, " ", ":")+":"+panicSite, "FlushAll panicked: "+panicMsg)
+			return r
 		}
 		monAfterFlushAll()
 		return fmt.Sprintf("ok c=%d %s", cl, status()) + renderEvents(true)
